@@ -28,8 +28,8 @@ PROPERTY = 'C14'
 LEVEL = 'exploration'
 RULE = ('Hypothesis-generated configurations of 1-6 direct WMS sources (2 upstream hosts; per source: transparent, '
         'opacity incl. 0 and 1, transparent_color+tolerance, shared bbox/polygon coverages with/without clip, '
-        'min_res/max_res) in WMS layers of 1-3 sources (+ optional group layer, layer-level res range) x 3-7 GetMap requests each (ordered subset of 1-5 layers, transparent flag, '
-        'bgcolor, png/jpeg, 4 resolutions, window anchored on coverage edges / inside coverages / free). Upstream '
+        'min_res/max_res) in WMS layers of 1-3 sources (+ optional group layer, layer-level res range) x 3-7 GetMap '
+        'requests each (ordered subset of 1-5 layers, transparent flag, bgcolor, png/jpeg, 4 resolutions, window anchored on coverage edges / inside coverages / free). Upstream '
         'layer images: analytic RGBA fields (opaque, stripe/checker holes, soft alpha, colour-key cells, hidden '
         'colours) delivered as RGB/RGBA/P+transparency index/RGB+tRNS; LAYERS=a,b answered with the server-side '
         'composite. One evaluation = one request compared pixel-wise with the full float composition. Non-trivial = '
@@ -42,8 +42,9 @@ ASSUMPTIONS = [
     'transparent, clip=true hides everything outside the coverage, without clip everything outside the coverage '
     'bbox is transparent and the part inside the bbox but outside the polygon is not judged (doc: "tries to serve the full image")',
     'tolerance 2 levels per composited layer image (premultiplied for RGBA results); JPEG: + 10 + the range of the reference within 17 px, pixels with a range > 40 not judged',
-    'not judged: pixels within 1.1 px of a coverage edge; pixels where a sub-requested (coverage-limited) image varies '
-    'by more than 3 levels within +-1 px; for TRANSPARENT=TRUE + JPEG the pixels that are not opaque in the reference',
+    'not judged: pixels within 1.1 px of a coverage edge; pixels where a sub-requested (coverage-limited, hence up to '
+    '1 px displaced) image varies by more than 3 levels within +-1 px or has a hole/cell edge within 1.5 px; for '
+    'TRANSPARENT=TRUE + JPEG the pixels that are not opaque in the reference',
     'a request that renders exactly one layer image with opacity < 1 may show it faded against the background or unchanged '
     '(doc: opacity "only effects when multiple layers are merged")',
     'a source declared `transparent: false` that can be merged with its lower neighbour into one upstream request has '
@@ -113,6 +114,29 @@ def field_rgba(f, X, Y):
     if f['hidden'] != 'keep':
         rgb = np.where((a == 0)[..., None], np.asarray(HIDDEN[f['hidden']]), rgb)
     return np.concatenate([rgb, a[..., None]], axis=-1)
+
+
+def near_discontinuity(f, X, Y, r):
+    """True where a jump of the field (stripe / checker / cell edge) lies within r ground units (superset)."""
+    def lines(t, period, marks):
+        ft = _frac(t)
+        d = np.minimum(ft, 1.0 - ft)
+        for mk in marks:
+            d = np.minimum(d, np.abs(ft - mk))
+        return d * period
+    near = np.zeros(X.shape, bool)
+    al = f['alpha']
+    if al[0] == 'stripes':
+        _, p, duty, dx, dy, ph = al
+        near |= lines((X * dx + Y * dy) / p + ph, p / np.hypot(dx, dy), [duty]) <= r
+    elif al[0] == 'checker':
+        _, p, duty, ph = al
+        near |= (lines(X / p + ph, p, [duty]) <= r) | (lines(Y / p + ph, p, [duty]) <= r)
+    cells = f.get('cells')
+    if cells:
+        p, duty = cells[0], cells[1]
+        near |= (lines(X / p, p, [duty]) <= r) | (lines(Y / p, p, [duty]) <= r)
+    return near
 
 
 def over(dst, src):
@@ -582,7 +606,9 @@ def prepare_entries(case, rq, bbox):
                 # premultiplied colour and alpha variation under a displacement of up to one pixel
                 pm = np.concatenate([stack[..., :3] * stack[..., 3:4] / 255.0, stack[..., 3:4]], axis=-1)
                 e.var = (pm.max(axis=0) - pm.min(axis=0)).max(axis=-1)
-                e.dontcare |= e.var > 3.0
+                # the lattice bounds the smooth part; jumps closer than the possible displacement (1 px per axis,
+                # 1.5 px along a diagonal normal) are found analytically - a lattice misses slivers between two edges
+                e.dontcare |= (e.var > 3.0) | near_discontinuity(f, X, Y, 1.5 * res)
             if geom is not None:
                 clip = bool(s['cov'][1])
                 pts = shapely.points(X, Y)
@@ -633,17 +659,12 @@ def compare(got, exp, judged, tol_px, transparent_result):
         da = np.abs(g[..., 3] - exp[..., 3])
         err = np.maximum(dc, da)
     else:
-        flat = flatten_exp(exp)
-        err = np.abs(g[..., :3] - flat).max(axis=-1)
+        # the reference is opaque by construction when the base is opaque
+        err = np.abs(g[..., :3] - exp[..., :3]).max(axis=-1)
         err = np.maximum(err, 255.0 - g[..., 3])
     bad = judged & (err > tol_px)
     worst = float(np.where(judged, err - tol_px, -1e9).max()) if judged.any() else -1.0
     return bad, worst, err
-
-
-def flatten_exp(exp):
-    # expected picture is opaque by construction when the base is opaque
-    return exp[..., :3]
 
 
 def local_range(exp_rgb, radius=17):
